@@ -389,8 +389,12 @@ def run_jobs(jobs, seed, stdin_by_job=None):
                              stdin=subprocess.PIPE if inp is not None else subprocess.DEVNULL, env=env)
         procs.append((b, args, p, inp))
     lines, counts, failures = [], {}, []
-    for b, args, p, inp in procs:
-        o, e = p.communicate(inp)
+    # drain every job's pipes concurrently (a job whose stdout/stderr pipe is full would otherwise sit blocked until the
+    # jobs in front of it have finished, and the jobs would in effect run one after the other)
+    from concurrent.futures import ThreadPoolExecutor
+    with ThreadPoolExecutor(max_workers=max(1, len(procs))) as ex:
+        outs = list(ex.map(lambda t: t[2].communicate(t[3]), procs))
+    for (b, args, p, inp), (o, e) in zip(procs, outs):
         out = o.decode("utf-8", "replace").splitlines()
         lines += out
         key = b + " " + (str(args[0]) if args else "")
